@@ -19,7 +19,7 @@ RULE = ("definitions generated from the documented SFDL grammar over the catalog
         "<= 6, optional list names, random whitespace incl. none where legal, '#' comments) plus the shipped definitions; "
         "for each a body with 0-2 elements per open list is built from the documented shape; bracket and name mutants; the 60 "
         "pinned definitions of the known finding (known/c19_named_forms_corpus.json) with their recorded reading; "
-        "distinct by definition text; non-trivial when the definition contains at least one list")
+        "distinct by definition text; non-trivial when the definition contains at least one list; plus: pairs of definitions that differ only in where the line break ends a comment; names of non-item attributes of the data item package as unknown names")
 ASSUMPTIONS = ["docs/firststeps/sfdl.md is the specification of shapes and key names", "duplicate keys inside one record, "
                "empty lists '<L>' and trailing text are undocumented and not generated", "a comment glued to a token is always followed by "
                "whitespace after its line break (the tokenizer swallows the line break with the comment)"]
